@@ -13,6 +13,7 @@
 
    This file contains only the property theorems; proofs are in Proofs/Config.v. *)
 From Coq Require Import ZArith List Bool Lia.
+Require Import JV.Model.C15Executor JV.Gen.T_executor JV.Proofs.C15Executor.
 Require Import JV.Base.PyPrelude JV.Model.Config JV.Gen.T_config_param JV.Gen.T_active_backend JV.Gen.T_mp_context JV.Gen.T_backend_attrs JV.Gen.T_pool_settings JV.Proofs.Config.
 Import ListNotations.
 Open Scope Z_scope.
@@ -276,6 +277,27 @@ Theorem C17_idle_worker_timeout_priority : forall call obj,
   src_idle_worker_timeout call obj = Ok (gcp call obj 300) /\ src_idle_worker_timeout (Some 0) obj = Ok 0.
 Proof. intros. split; [apply idle_timeout_priority | rewrite idle_timeout_priority; reflexivity]. Qed.
 Print Assumptions C17_idle_worker_timeout_priority.
+
+(* n_jobs IS SCOPED DOWN TO THE SHARED LOKY EXECUTOR (machine Model/C15Executor.v, decisions regenerated: Gen/T_executor.v).
+   After ANY history -- in particular `with parallel_config(n_jobs=4): Parallel()(...)` left behind -- the executor that a later
+   call with resolved n_jobs = n runs on has _max_workers = n and exactly n live workers once its tasks are submitted; a resize is
+   skipped only when the sizes are equal. *)
+Theorem C17_n_jobs_scoped_in_shared_executor : forall ops n_before args n s' e reused,
+  get_executor n args (erun (ops ++ [OGet n_before args; OSubmit]) init_state) = Ok (s', e, reused) ->
+  x_max e = n /\ 0 <= x_alive e <= n /\
+  (exists e', s_exec (estep s' OSubmit) = Some e' /\ x_max e' = n /\ x_alive e' = n /\ x_id e' = x_id e) /\
+  (forall m cur, resize_noop m cur = true -> m = cur).
+Proof. exact executor_size_scoped. Qed.
+Print Assumptions C17_n_jobs_scoped_in_shared_executor.
+
+(* mmap_mode / max_nbytes REACH THE PLACE WHERE THEY ARE USED: both the multiprocessing pool and the loky executor hand them on to
+   the memmapping reducers (regenerated facts), so the memmap a worker receives has the resolved mode ('w+' coerced to 'r+') *)
+Theorem C17_mmap_mode_reaches_workers : forall resolved,
+  worker_mmap_mode mp_pool_passes_mmap_mode resolved = (if resolved =? 3 then 2 else resolved) /\
+  worker_mmap_mode loky_executor_passes_mmap_mode resolved = (if resolved =? 3 then 2 else resolved) /\
+  mp_pool_passes_max_nbytes = true /\ loky_executor_passes_max_nbytes = true.
+Proof. exact worker_mode_is_resolved. Qed.
+Print Assumptions C17_mmap_mode_reaches_workers.
 
 (* THE SETTINGS OF AN OBJECT ARE CONSTANT OVER ITS LIFE.  For every backend class and every history of __enter__ / successful
    calls / failed calls / __exit__ on one Parallel object: every configure the backend receives carries the record resolved by
